@@ -294,13 +294,17 @@ def run(prog, world, sem, rep):
                     else:
                         src = tk0
                         okv = val.op == "bin" and val.info == "Mul" and len(val.args) == 2
+                        if src is None:
+                            bad.append("the converting handler is reachable without the sender having been matched with a registered token")
+                            okv = False
                         if okv:
                             rls = [roles.role(z) for z in val.args]
                             okv = ("state", RATE[src]) in rls
                             other = [z for z, r in zip(val.args, rls) if r != ("state", RATE[src])]
                             okv = okv and len(other) == 1
                             if okv:
-                                o = other[0]
+                                # (the after-fee amount may come out of a pure helper / State method: looked through)
+                                o = through_pure(world, other[0])
                                 oa = o.args if o.op == "phi" else (o,)
                                 for y in oa:
                                     y0 = arith_args(y, "Sub")[0] if arith_args(y, "Sub") is not None else y
